@@ -872,12 +872,34 @@ impl Prop for C09 {
         if t.a.log.len() > n + 1 {
             return Verdict::Bad(format!("{} action invocations for {} characters (bound is n+1)", t.a.log.len(), n));
         }
+        // progress (reference-free): every item accounts for at least one character or for the
+        // single end-of-input event — token ends strictly increase and consecutive errors are
+        // located strictly further, except for items that sit at the very end of the input
+        let n_bytes = v[0].input.len() as u32;
+        let marker = |i: &proto::Item| match i {
+            proto::Item::Tok { end, .. } => end.byte,
+            proto::Item::Invalid { loc } | proto::Item::Custom { loc, .. } => loc.byte,
+        };
+        for w in t.a.items.windows(2) {
+            let (a, b) = (&w[0], &w[1]);
+            let stalled = match b {
+                proto::Item::Tok { end, .. } => end.byte <= marker(a) && end.byte != n_bytes,
+                _ => !matches!(a, proto::Item::Tok { .. }) && marker(b) <= marker(a) && marker(b) != n_bytes,
+            };
+            if stalled {
+                return Verdict::Bad(format!(
+                    "no progress between consecutive items {} and {}",
+                    fmt_item(a),
+                    fmt_item(b)
+                ));
+            }
+        }
         Verdict::Ok {
             nontrivial: (n >= 8 && model.facts.invalid > 0 && model.facts.continues > 0) || n >= 300,
         }
     }
     fn rule(&self) -> String {
-        "definitions of every profile (rewinding, rule sets, right contexts, `$`, Unicode classes, all action kinds); inputs: short exhaustive strings, sampled lexemes with mutations, arbitrary scalar values, the empty input, a single repeated character, only-unlexable characters, and inputs of 1,200-3,000 characters (150-300 for definitions with right contexts, whose worst case is cubic); all six constructor variants. No reference is needed: the lexer must not panic, abort or hang (20 s watchdog per case, action budget n+2 enforced inside the actions), must yield at most n+1 items and run at most n+1 logged actions. Non-trivial = (n >= 8 with at least one error and one continue_) or n >= 300.".into()
+        "definitions of every profile (rewinding, rule sets, right contexts, `$`, Unicode classes, all action kinds); inputs: short exhaustive strings, sampled lexemes with mutations, arbitrary scalar values, the empty input, a single repeated character, only-unlexable characters, and inputs of 1,200-3,000 characters (150-300 for definitions with right contexts, whose worst case is cubic); all six constructor variants. No reference is needed: the lexer must not panic, abort or hang (20 s watchdog per case, action budget n+2 enforced inside the actions), must yield at most n+1 items and run at most n+1 logged actions, and must make progress between consecutive items (token ends strictly increase, consecutive errors are located strictly further, except at the very end of the input). Non-trivial = (n >= 8 with at least one error and one continue_) or n >= 300.".into()
     }
     fn min_nontrivial(&self, _tier: Tier) -> usize {
         200
